@@ -149,8 +149,8 @@ PROPS = {
         "case_sets": ["cli"],
         "ops": ["CLI"],
         "oracle_clauses": [r"c16-.*", r"unreadable-.*"],
-        "lean_targets": ["PqlModel.Props.C16a", "PqlModel.Props.C16", "PqlModel.Props.C16IO", "PqlModel.Props.C16Semantics", "PqlModel.Props.C05NoPlaceholderCli", "PqlModel.Props.C16RunIR", "PqlModel.Props.C16IOIRTrees", "PqlModel.Props.C16IOIR", "PqlModel.Props.C16IOIRMake", "PqlModel.Props.IRHeadlines", "PqlModel.Props.IRHeadlinesIO", "PqlModel.Props.C16StreamIR"],
-        "facts": ["cliIR", "cliRunParams", "cliIOIR"],
+        "lean_targets": ["PqlModel.Props.C16a", "PqlModel.Props.C16", "PqlModel.Props.C16IO", "PqlModel.Props.C16Semantics", "PqlModel.Props.C05NoPlaceholderCli", "PqlModel.Props.C16RunIR", "PqlModel.Props.C16IOIRTrees", "PqlModel.Props.C16IOIR", "PqlModel.Props.C16IOIRMake", "PqlModel.Props.IRHeadlines", "PqlModel.Props.IRHeadlinesIO", "PqlModel.Props.C16StreamIR", "PqlModel.Props.C16MainIR"],
+        "facts": ["cliIR", "cliRunParams", "cliIOIR", "cliMainIR", "cliMainCommand", "cliMainFlags"],
         "rule": "CLI: the built cmd/pql binary on scripts (sequences of let / query / invalid statements, several per line, across "
                 "lines, comments, blank lines, CRLF, final statement terminated or not, lines around the 64 KiB limit) via stdin, "
                 "one file, several files (statements spanning file boundaries) and -o; stdout, exit status and error count are "
